@@ -9,7 +9,9 @@ Tie: the harness supplies every domain as a ONE-SHOT GENERATOR that logs each pu
 attributes are data descriptors that log each read; queries are built through the public API (let, entity, set_of, and_,
 or_, not_, contains, comparison operators, attribute chains).  For every query and every n = 0 .. rows+1 a FRESH query is
 built (the construction log must stay empty), n results are pulled from an(...).evaluate(), and the log is compared with
-the model's trace_n EVENT FOR EVENT (Pull / End / Get / Yield)."""
+the model's trace_n EVENT FOR EVENT (Pull / End / Get / Yield).  Further families: re-evaluation after an abandoned iterator (same
+query object, rebuilt query, another query over the same variables; model: trace_seq), silent construction through the match API,
+and exists / for_all shapes (Spec predicates on the implementation's logs only)."""
 from __future__ import annotations
 
 import json
@@ -86,11 +88,9 @@ def build_world(case) -> Dict[int, Any]:
     return objs
 
 
-def build_query(case, objs):
-    """as eqlgen.build_query, but every domain is a logging one-shot generator"""
-    from krrood.entity_query_language.entity import let, entity, set_of, and_, or_, not_, contains
-    from krrood.entity_query_language.quantify_entity import an
-
+def make_vars(case, objs):
+    """one let(...) per variable of the case, every domain a logging one-shot generator"""
+    from krrood.entity_query_language.entity import let
     types = {"P": eqlgen.P, "T": eqlgen.T, "int": int}
     vs = {}
     for name in eqlgen.VARS:
@@ -98,6 +98,16 @@ def build_query(case, objs):
             t = case["vars"][name]
             items = [objs[i] if t != "int" else i for i in case["doms"][name]]
             vs[name] = let(types[t], logged_domain(eqlgen.VARS.index(name), items), name=name)
+    return vs
+
+
+def build_query(case, objs, vs=None):
+    """as eqlgen.build_query, but every domain is a logging one-shot generator; [vs]: build over existing let-variables"""
+    from krrood.entity_query_language.entity import entity, set_of, and_, or_, not_, contains, exists, for_all
+    from krrood.entity_query_language.quantify_entity import an
+
+    if vs is None:
+        vs = make_vars(case, objs)
 
     def opnd(e):
         k = e[0]
@@ -120,6 +130,10 @@ def build_query(case, objs):
             return or_(cond(c[1]), cond(c[2]))
         if k == "not":
             return not_(cond(c[1]))
+        if k == "exists":
+            return exists(vs[c[1]], cond(c[2]))
+        if k == "forall":
+            return for_all(vs[c[1]], cond(c[2]))
         raise ValueError(k)
 
     sels = [opnd(s) for s in case["sels"]]
@@ -129,6 +143,19 @@ def build_query(case, objs):
         return an(d), sels, True
     d = set_of(sels, c) if c is not None else set_of(sels)
     return an(d), sels, False
+
+
+def _pull(it, n, sels, single):
+    got = 0
+    while n is None or got < n:
+        try:
+            r = next(it)
+        except StopIteration:
+            break
+        row = [eqlgen.canon_val(r)] if single else [eqlgen.canon_val(r[s]) for s in sels]
+        LOG.append([3, row])
+        got += 1
+    return got
 
 
 def run_stopped(case, n: Optional[int]) -> Dict[str, Any]:
@@ -141,15 +168,7 @@ def run_stopped(case, n: Optional[int]) -> Dict[str, Any]:
         it = q.evaluate()
         build = list(LOG)
         del LOG[:]
-        got = 0
-        while n is None or got < n:
-            try:
-                r = next(it)
-            except StopIteration:
-                break
-            row = [eqlgen.canon_val(r)] if single else [eqlgen.canon_val(r[s]) for s in sels]
-            LOG.append([3, row])
-            got += 1
+        _pull(it, n, sels, single)
         out = {"build": build, "log": list(LOG)}
         del it
         return out
@@ -174,8 +193,111 @@ def run_impl(case) -> Dict[str, Any]:
     return {"build": build, "full": full["log"], "ks": ks}
 
 
+def run_seq(case, n: int, variant: str, case2: dict, m: Optional[int]) -> Dict[str, Any]:
+    """pull n results of the case's query and abandon the iterator; then pull m results (None: all) of a second evaluation:
+    variant "same": the same an(...) object evaluated again; "rebuilt" / "other": a query built AFTER the first evaluation over
+    the same let-variables (case2 = its description).  -> {"build": construction events, "base": log after step 1, "log": after both}"""
+    del LOG[:]
+    try:
+        objs = build_world(case)
+        del LOG[:]
+        vs = make_vars(case, objs)
+        q, sels, single = build_query(case, objs, vs)
+        it = q.evaluate()
+        build = list(LOG)
+        del LOG[:]
+        _pull(it, n, sels, single)
+        it.close()
+        del it
+        base = list(LOG)
+        if variant == "same":
+            q2, sels2, single2 = q, sels, single
+        else:
+            q2, sels2, single2 = build_query(case2, objs, vs)
+        it2 = q2.evaluate()
+        if len(LOG) != len(base):
+            build += LOG[len(base):]
+            del LOG[len(base):]
+        _pull(it2, m, sels2, single2)
+        it2.close()
+        return {"build": build, "base": base, "log": list(LOG)}
+    except Exception as e:  # noqa
+        return {"exc": type(e).__name__, "log": list(LOG)}
+
+
+def seq_scenarios(case: dict, nrows: int, rng) -> List[dict]:
+    """re-evaluation scenarios of one (quantifier-free) case: (n, variant, second query, m)"""
+    if nrows == 0:
+        ns = [1]
+    else:
+        ns = sorted({1, rng.randint(1, nrows)})
+    out = []
+    for n in ns:
+        variant = rng.choice(["same", "same", "rebuilt", "other"])
+        case2 = case
+        if variant == "other":
+            alts = []
+            c = case["cond"]
+            if c is not None:
+                alts += [dict(case, cond=x) for x in eqlcheck._subconds(c)][:6]
+                alts.append(dict(case, cond=["not", c]))
+            for v in case["vars"]:
+                alts.append(dict(case, sels=[["var", v]]))
+            case2 = dict(rng.choice(alts))
+            case2.pop("force_setof", None)
+            try:
+                eqlgen.g_case(case2)
+            except Exception:  # noqa
+                case2, variant = case, "rebuilt"
+        m = rng.choice([1, 1, min(n, max(nrows, 1)), None])
+        out.append({"n": n, "variant": variant, "case2": case2, "m": m})
+    return out
+
+
 def _impl_chunk(cases):
     return [run_impl(c) for c in cases]
+
+
+def _seq_chunk(jobs):
+    return [run_seq(c, sc["n"], sc["variant"], sc["case2"], sc["m"]) for c, sc in jobs]
+
+
+def run_seq_many(jobs: List[Tuple[dict, dict]], chunk: int = 40) -> List[Any]:
+    parts = [jobs[i:i + chunk] for i in range(0, len(jobs), chunk)]
+    out: List[Any] = []
+    if not parts:
+        return out
+    with ProcessPoolExecutor(max_workers=min(eqlcheck.N_WORKERS, len(parts))) as ex:
+        for r in ex.map(_seq_chunk, parts):
+            out += r
+    return out
+
+
+def g_query(case) -> str:
+    sels = "[" + "; ".join(eqlgen.g_opnd(case, x) for x in case["sels"]) + "]"
+    cond = f"(Some {eqlgen.g_cond(case, case['cond'])})" if case["cond"] is not None else "None"
+    return f"{{| q_sels := {sels}; q_cond := {cond} |}}"
+
+
+def coq_seq(jobs: List[Tuple[dict, dict]], impls: List[dict], model_ok: bool) -> List[Tuple[Optional[list], int]]:
+    """(model log after both evaluations or None, Spec code of the implementation's log) per scenario"""
+    ex = []
+    for (c, sc), i in zip(jobs, impls):
+        m = 1000 if sc["m"] is None else sc["m"]
+        q2 = g_query(sc["case2"])
+        quiet = "true" if (sc["variant"] != "other" and sc["m"] is not None and sc["m"] <= sc["n"]) else "false"
+        spec = f"seq_spec_code c ({q2}) {quiet} {g_log(i['base'])} {g_log(i['log'])}"
+        model = f"c10_seq c {sc['n']}%nat ({q2}) {m}%nat" if model_ok else "SL []"
+        ex.append(f"let c := {eqlgen.g_case(c)} in SL [{model}; {spec}]")
+    vals = core.coq_values(PROP, HEADER if model_ok else SPEC_HEADER, ex, chunk=60, tag="seq")
+    return [((v[0] if model_ok else None), v[1]) for v in vals]
+
+
+def seq_snippet(case, sc) -> str:
+    return ("import json; from harness import c10\n"
+            f"case = json.loads({json.dumps(json.dumps(case))}); case2 = json.loads({json.dumps(json.dumps(sc['case2']))})\n"
+            f"print(c10.run_seq(case, {sc['n']!r}, {sc['variant']!r}, case2, {sc['m']!r}))"
+            "   # base = log after pulling n results and abandoning the iterator; log = after the second evaluation as well")
 
 
 def run_impl_many(cases: List[dict], chunk: int = 40) -> List[Any]:
@@ -191,6 +313,183 @@ def snippet(case, n=None) -> str:
     return ("import json; from harness import c10\n"
             f"case = json.loads({json.dumps(json.dumps(case))})\n"
             f"print(c10.run_stopped(case, {n!r}))   # events: [0,x,i] pull  [1,x] generator finished  [2,obj,attr] getattr  [3,row] result")
+
+
+# ------------------------------------------------------------------ construction through the match API (implementation only)
+from dataclasses import dataclass, field as _dfield  # noqa: E402
+from krrood.entity_query_language.predicate import Symbol  # noqa: E402
+
+_MFIELDS = {"name": 0, "age": 1, "label": 2, "owner": 3, "toys": 4, "weight": 5}
+_OBSERVE = [False]
+
+
+class _Observed:
+    """every read of a data field of a user object is an event [2, object id, field id] (while observation is switched on)"""
+
+    def __getattribute__(self, name):
+        if _OBSERVE[0] and name in _MFIELDS:
+            LOG.append([2, object.__getattribute__(self, "__dict__").get("uid", -1), _MFIELDS[name]])
+        return object.__getattribute__(self, name)
+
+    def __bool__(self):
+        if _OBSERVE[0]:
+            LOG.append([4, object.__getattribute__(self, "__dict__").get("uid", -1)])
+        return True
+
+
+@dataclass(eq=False)
+class MOwner(_Observed, Symbol):
+    name: str
+    age: int
+    uid: int = 0
+
+
+@dataclass(eq=False)
+class MToy(_Observed, Symbol):
+    label: str
+    uid: int = 0
+
+
+@dataclass(eq=False)
+class MPet(_Observed, Symbol):
+    name: str
+    owner: MOwner
+    weight: int
+    toys: List[MToy] = _dfield(default_factory=list)
+    uid: int = 0
+
+
+_NAMES = ["ann", "joe", "sue", "rex", "tom"]
+
+
+def gen_match_scenario(rng) -> dict:
+    no, nt, npets = rng.randint(1, 3), rng.randint(1, 3), rng.randint(1, 4)
+    sc = {"owners": [{"name": rng.choice(_NAMES), "age": rng.randint(0, 2)} for _ in range(no)],
+          "toys": [rng.choice(["ball", "rope", "bone"]) for _ in range(nt)],
+          "pets": [{"name": rng.choice(_NAMES), "owner": rng.randint(0, no - 1), "weight": rng.randint(0, 2),
+                    "toys": [rng.randint(0, nt - 1) for _ in range(rng.randint(0, 2))]} for _ in range(npets)]}
+
+    def scalar(kind):
+        """a value to match a str / int field against: literal or a let-variable over a generator domain"""
+        pool = _NAMES if kind == "str" else [0, 1, 2]
+        if rng.chance(0.5):
+            return ["lit", rng.choice(pool)]
+        return ["var", kind, [rng.choice(pool) for _ in range(rng.randint(1, 3))]]
+
+    def owner_value(depth):
+        r = rng.random()
+        if r < 0.2:
+            return ["obj", "owner", rng.randint(0, no - 1)]
+        if r < 0.5:
+            return ["var", "MOwner", [rng.randint(0, no - 1) for _ in range(rng.randint(1, 3))]]
+        kw = {}
+        if rng.chance(0.7):
+            kw["name"] = scalar("str")
+        if rng.chance(0.5) or not kw:
+            kw["age"] = scalar("int")
+        return ["select" if rng.chance(0.3) else "match", "MOwner", kw]
+
+    def toys_value():
+        r = rng.random()
+        ids = [rng.randint(0, nt - 1) for _ in range(rng.randint(1, 2))]
+        if r < 0.35:
+            return ["match_any", ids]
+        if r < 0.6:
+            return ["match_all", ids]
+        if r < 0.8:
+            return ["match_any_var", ids]
+        return ["match_any_nested", {"label": scalar("str")}]
+
+    kw = {}
+    for f in rng.sample(["name", "weight", "owner", "toys"], rng.randint(1, 3)):
+        kw[f] = scalar("str") if f == "name" else scalar("int") if f == "weight" else owner_value(0) if f == "owner" else toys_value()
+    sc["kw"] = kw
+    return sc
+
+
+def run_match(sc) -> Dict[str, Any]:
+    """build an(entity_matching(MPet, generator)(...)) -- every domain a logging one-shot generator -- and return the events
+    logged DURING CONSTRUCTION ("build", must be empty), then evaluate it (events "eval", rows)"""
+    from krrood.entity_query_language.entity import let
+    from krrood.entity_query_language.match import entity_matching, match, match_any, match_all, select
+    from krrood.entity_query_language.quantify_entity import an
+    del LOG[:]
+    _OBSERVE[0] = False
+    try:
+        owners = [MOwner(o["name"], o["age"], uid=100 + i) for i, o in enumerate(sc["owners"])]
+        toys = [MToy(t, uid=200 + i) for i, t in enumerate(sc["toys"])]
+        pets = [MPet(p["name"], owners[p["owner"]], p["weight"], [toys[t] for t in p["toys"]], uid=300 + i)
+                for i, p in enumerate(sc["pets"])]
+        nvar = [0]
+
+        def variable(kind, items):
+            nvar[0] += 1
+            if kind == "MOwner":
+                return let(MOwner, logged_domain(nvar[0], [owners[i] for i in items]))
+            if kind == "MToy":
+                return let(MToy, logged_domain(nvar[0], [toys[i] for i in items]))
+            return let({"str": str, "int": int}[kind], logged_domain(nvar[0], list(items)))
+
+        def value(v):
+            k = v[0]
+            if k == "lit":
+                return v[1]
+            if k == "obj":
+                return owners[v[2]]
+            if k == "var":
+                return variable(v[1], v[2])
+            if k in ("match", "select"):
+                return (match if k == "match" else select)(MOwner)(**{f: value(x) for f, x in v[2].items()})
+            if k == "match_any":
+                return match_any([toys[i] for i in v[1]])
+            if k == "match_all":
+                return match_all([toys[i] for i in v[1]])
+            if k == "match_any_var":
+                return match_any(variable("MToy", v[1]))
+            if k == "match_any_nested":
+                return match_any(MToy)(**{f: value(x) for f, x in v[1].items()})
+            raise ValueError(k)
+
+        _OBSERVE[0] = True
+        q = an(entity_matching(MPet, logged_domain(0, pets))(**{f: value(x) for f, x in sc["kw"].items()}))
+        it = q.evaluate()
+        build = list(LOG)
+        del LOG[:]
+        try:
+            rows = len(list(it))
+            ev = {"rows": rows, "pulls": len([e for e in LOG if e[0] == 0])}
+        except Exception as e:  # noqa: what the evaluation of such a pattern does is C11's subject
+            ev = {"eval_exc": type(e).__name__}
+        return dict(ev, build=build)
+    except Exception as e:  # noqa
+        return {"exc": type(e).__name__, "build": list(LOG)}
+    finally:
+        _OBSERVE[0] = False
+
+
+def _match_chunk(scs):
+    from krrood.entity_query_language.symbol_graph import SymbolGraph
+    SymbolGraph().clear()
+    SymbolGraph()
+    return [run_match(sc) for sc in scs]
+
+
+def run_match_many(scs: List[dict], chunk: int = 50) -> List[Any]:
+    parts = [scs[i:i + chunk] for i in range(0, len(scs), chunk)]
+    out: List[Any] = []
+    if not parts:
+        return out
+    with ProcessPoolExecutor(max_workers=min(eqlcheck.N_WORKERS, len(parts))) as ex:
+        for r in ex.map(_match_chunk, parts):
+            out += r
+    return out
+
+
+def match_snippet(sc) -> str:
+    return ("import json; from harness import c10\n"
+            f"sc = json.loads({json.dumps(json.dumps(sc))})\n"
+            "print(c10._match_chunk([sc])[0])   # 'build' = events while an(entity_matching(MPet, generator)(**kw)) was constructed: "
+            "[0,var,i] element pulled from a generator domain, [2,obj,field] field read, [4,obj] bool(obj)")
 
 
 # ------------------------------------------------------------------ log <-> sx
@@ -282,7 +581,14 @@ SPEC_BITS = {1: "the rows / the log of an n-stopped run are not a prefix of the 
              2: "a domain was not consumed as the prefix 0,1,2,...",
              4: "a domain was exhausted before any earlier-used variable moved past its first element "
                 "(more pulled than the reference lazy nested-loop enumerator needs)",
+             8: "an element was pulled from a generator domain and not looked at before more was pulled / the generator was finished / "
+                "the log ended (read-ahead, or a partly cached domain drained)",
              16: "construction (let/entity/set_of/and_/or_/not_/contains/operators) ran user code"}
+SEQ_BITS = {1: "the log after the second evaluation does not extend the log after the first",
+            2: "a domain was not consumed as the prefix 0,1,2,... across the two evaluations",
+            4: "re-evaluating the same query for no more results than were already obtained touched a generator "
+               "(everything it needs is cached)",
+            8: SPEC_BITS[8], 16: "construction of the second query ran user code"}
 
 
 def explain(code: int) -> List[str]:
@@ -366,10 +672,21 @@ def run(tier: str, seed: int, replay=None) -> int:
         "one consumer per query: iterators resumed in an interleaved fashion are C03's subject",
         "the demand bound (Spec bit 4) is relative to a single-pass nested-loop enumerator and is applied to union-free conditions",
     ]
-    rep.rule = ("seeded random queries (harness/eqlgen.py, profile c01, quantifier-free): 1-3 variables over object / value-equal-twin / int "
-                "domains of 0-4 elements given as logging one-shot generators, conditions of depth <= 3, 1-3 selected expressions; "
-                "every query is rebuilt and run for EVERY n = 0 .. rows+1 and in full; one evaluation = one (query, n) pair; "
-                "non-trivial = the query has a condition and n >= 1 and at least one domain element was pulled")
+    rep.assume.append("re-evaluation scenarios: the first iterator is closed before the second evaluation starts (two LIVE iterators over one "
+                      "variable are C03's subject); the model of the second evaluation is the same evaluator started from the log the first left")
+    rep.assume.append("quantified queries (exists / for_all) and match-API constructions have NO model: the Spec predicates (silent construction, "
+                      "prefix, pull order, read-ahead) are evaluated on the real engine's logs only; Spec bit 8 (read-ahead) and the re-evaluation "
+                      "bit 4 (a repeated evaluation that needs only cached elements touches no generator) are not proved of the model, they are "
+                      "checked on the model's logs through the event-for-event comparison")
+    rep.rule = ("four families, all seeded. (1) random quantifier-free queries (harness/eqlgen.py, profile c01): 1-3 variables over object / "
+                "value-equal-twin / int domains of 0-4 elements given as logging one-shot generators, conditions of depth <= 3, 1-3 selected "
+                "expressions; every query is rebuilt and run for EVERY n = 0 .. rows+1 and in full; one evaluation = one (query, n) pair. "
+                "(2) re-evaluation: for 1-2 values of n per query, pull n results, close the iterator, then pull m in {1, <= n, all} results "
+                "from the same an(...) object / a rebuilt query / another query (sub-condition, negation, other selection) over the SAME "
+                "let-variables, built after the first evaluation; log compared with the model's trace_seq. (3) construction through the match API: "
+                "an(entity_matching(T, generator)(kw...)) with literals, let-variables over generator domains, nested match / select / match_any / "
+                "match_all as keyword values; the construction log must be empty. (4) queries with exists / for_all (profile quant) for every n. "
+                "non-trivial = at least one domain element was pulled (families 1, 2, 4) / a keyword value is a variable (family 3)")
     ok_spec, log = core.coq_make(["Base/Sx.vo", "Eql/TraceSpec.vo"])
     rep.oblige("build:spec", ok_spec, "" if ok_spec else core.first_error(log))
     model_ok = core.standard_proof_steps(rep, PROP, ["Props/C10.vo"])
@@ -385,16 +702,27 @@ def run(tier: str, seed: int, replay=None) -> int:
     # ---- cases
     cases: List[dict] = []
     origin: List[str] = []
-    if replay is not None and "case" in replay:
-        cases.append(normalise(replay["case"]))
-        origin.append("replay")
+    qcases: List[dict] = []            # quantified shapes: no model, Spec predicates on the implementation's logs only
+    qorigin: List[str] = []
+    seq_jobs: List[Tuple[dict, dict]] = []
+    match_scs: List[dict] = []
+    family = (replay or {}).get("family")
+    if replay is not None and family == "seq":
+        seq_jobs.append((normalise(replay["case"]), replay["scenario"]))
+    elif replay is not None and family == "match":
+        match_scs.append(replay["scenario"])
+    elif replay is not None and "case" in replay:
+        c = normalise(replay["case"])
+        (qcases if eqlgen.has_quant(c["cond"]) else cases).append(c)
+        (qorigin if eqlgen.has_quant(c["cond"]) else origin).append("replay")
     elif replay is None:
         cdir = core.VERIF / "corpus" / PROP
         for f in sorted(cdir.glob("*.json")) if cdir.is_dir() else []:
             d = json.loads(f.read_text())
             if "case" in d:
-                cases.append(normalise(d["case"]))
-                origin.append(f"corpus:{f.name}")
+                c = normalise(d["case"])
+                (qcases if eqlgen.has_quant(c["cond"]) else cases).append(c)
+                (qorigin if eqlgen.has_quant(c["cond"]) else origin).append(f"corpus:{f.name}")
         n = 420 if tier == "quick" else 6000
         rng = core.Rng(seed * 1000003 + 17)
         i = 0
@@ -404,6 +732,17 @@ def run(tier: str, seed: int, replay=None) -> int:
             if in_scope(c):
                 cases.append(c)
                 origin.append(f"gen:{i - 1}")
+        nq = 150 if tier == "quick" else 2500
+        rq = core.Rng(seed * 1000003 + 99)
+        i = 0
+        while len(qcases) < nq + len([o for o in qorigin if o.startswith("corpus")]):
+            c = normalise(eqlgen.gen_case(rq.fork(i), "quant"))
+            i += 1
+            if eqlgen.has_quant(c["cond"]) and not classes(c):
+                qcases.append(c)
+                qorigin.append(f"genq:{i - 1}")
+        rm = core.Rng(seed * 1000003 + 55)
+        match_scs = [gen_match_scenario(rm.fork(i)) for i in range(300 if tier == "quick" else 4000)]
 
     impls = run_impl_many(cases)
     ran = [k for k, i in enumerate(impls) if "exc" not in i]
@@ -447,7 +786,7 @@ def run(tier: str, seed: int, replay=None) -> int:
                 tie_bad.append((c, j, o))       # meets the Spec predicates but not the model's log: the tie is broken
             continue
         # the implementation's logs miss the Spec
-        if (not j["f10"]) and j["code"] == 4 and j["diff"] is None and model_ok and "K_product" in cls and "K_product" in open_classes:
+        if (not j["f10"]) and j["code"] in (4, 8, 12) and j["diff"] is None and model_ok and "K_product" in cls and "K_product" in open_classes:
             kf_counts["K_product"] = kf_counts.get("K_product", 0) + 1
             continue
         bad.append((c, j, o))
@@ -455,7 +794,7 @@ def run(tier: str, seed: int, replay=None) -> int:
     def is_bad(c, j):
         if j["code"] == 0:
             return False
-        return not ((not j["f10"]) and j["code"] == 4 and j["diff"] is None and "K_product" in classes(c) and "K_product" in open_classes)
+        return not ((not j["f10"]) and j["code"] in (4, 8, 12) and j["diff"] is None and "K_product" in classes(c) and "K_product" in open_classes)
 
     for c, j, o in bad[:3]:
         small = c
@@ -502,6 +841,117 @@ def run(tier: str, seed: int, replay=None) -> int:
     elif model_ok:
         rep.oblige("correspondence:model", True, f"{dist['log_eq_model_pairs']} (query, n) logs equal to the model's trace_n event for event")
 
+    # ---- re-evaluation: pull n results, abandon the iterator, evaluate again (same object / rebuilt / another query over the same variables)
+    if replay is None:
+        rs = core.Rng(seed * 1000003 + 71)
+        for k, (c, i) in enumerate(zip(cases, impls)):
+            if "exc" not in i:
+                for sc in seq_scenarios(c, len(i["ks"]) - 2, rs.fork(k)):
+                    seq_jobs.append((c, sc))
+    seq_impl = run_seq_many(seq_jobs)
+    sran = [k for k, i in enumerate(seq_impl) if "exc" not in i]
+    seq_vals = dict(zip(sran, coq_seq([seq_jobs[k] for k in sran], [seq_impl[k] for k in sran], model_ok)))
+    seq_bad: List[Tuple[int, dict]] = []
+    seq_tie: List[Tuple[int, dict]] = []
+    sdist = {"scenarios": len(seq_jobs), "same": 0, "rebuilt": 0, "other": 0, "log_eq_model": 0, "second_eval_pulled": 0, "exceptions": 0}
+    for k, ((c, sc), i) in enumerate(zip(seq_jobs, seq_impl)):
+        sdist[sc["variant"]] += 1
+        if "exc" in i:
+            sdist["exceptions"] += 1
+            seq_bad.append((k, {"code": 32, "exc": i["exc"]}))
+            continue
+        mlog, code = seq_vals[k]
+        code |= 16 if i["build"] else 0
+        eq = mlog is None or canon_log(i["log"]) == mlog
+        sdist["log_eq_model"] += int(mlog is not None and eq)
+        pulled2 = len([e for e in i["log"][len(i["base"]):] if e[0] == 0]) > 0
+        sdist["second_eval_pulled"] += int(pulled2)
+        rep.count(json.dumps(["seq", c, sc], sort_keys=True), pulled2 or len(i["log"]) > len(i["base"]))
+        info = {"code": code, "model_log": mlog, "eq": eq}
+        if code == 0:
+            if not eq:
+                seq_tie.append((k, info))
+            continue
+        kp = "K_product" in classes(c) or "K_product" in classes(sc["case2"])
+        if code == 8 and eq and model_ok and kp and "K_product" in open_classes:
+            kf_counts["K_product_reeval"] = kf_counts.get("K_product_reeval", 0) + 1
+            continue
+        seq_bad.append((k, info))
+    for k, info in sorted(seq_bad + seq_tie[:1], key=lambda t: len(json.dumps(seq_jobs[t[0]])))[:3]:
+        c, sc = seq_jobs[k]
+        i = seq_impl[k]
+        rep.violation({"kind": "counterexample", "family": "seq", "case": c, "scenario": sc,
+                       "spec_code": info["code"], "spec_misses": [t for b, t in SEQ_BITS.items() if info["code"] & b] + ([f"raised {info['exc']}"] if "exc" in info else []),
+                       "impl": {kk: canon_log(v) for kk, v in i.items() if kk in ("build", "base", "log")},
+                       "model_log": info.get("model_log"), "python": seq_snippet(c, sc),
+                       "explanation": "pull scenario.n results from an(...).evaluate() of the case's query, close the iterator, then pull scenario.m "
+                                      "(null = all) results from a second evaluation (variant same: the same an(...) object; rebuilt / other: "
+                                      "scenario.case2 built over the SAME let-variables). base = log after the first step, log = after both; "
+                                      "events [0,x,i] pull, [1,x] generator finished, [2,obj,attr] getattr, [3,row] result. model_log = the model's "
+                                      "trace_seq (Eql/Trace.v): the domain cache replays what is cached and pulls only beyond it"})
+    if seq_tie:
+        rep.oblige("correspondence:model-reevaluation", False, f"{len(seq_tie)} re-evaluation scenarios whose log differs from the model's trace_seq")
+    elif model_ok and seq_jobs:
+        rep.oblige("correspondence:model-reevaluation", True, f"{sdist['log_eq_model']} two-evaluation logs equal to the model's trace_seq event for event")
+    if len(seq_bad) > 3:
+        rep.note(f"{len(seq_bad)} re-evaluation scenarios miss the Spec (3 smallest reported)")
+
+    # ---- construction through the match API: the construction log must be empty
+    mres = run_match_many(match_scs)
+    mdist = {"scenarios": len(match_scs), "with_variable_kw": 0, "nested": 0, "evaluated_ok": 0, "eval_exception": 0, "construction_exception": 0, "pulled_at_eval": 0}
+    mbad = []
+    for sc, r in zip(match_scs, mres):
+        txt = json.dumps(sc["kw"])
+        mdist["with_variable_kw"] += int('"var"' in txt or "match_any_var" in txt)
+        mdist["nested"] += int('"match"' in txt or '"select"' in txt or "match_any_nested" in txt)
+        mdist["evaluated_ok"] += int("rows" in r)
+        mdist["eval_exception"] += int("eval_exc" in r)
+        mdist["construction_exception"] += int("exc" in r)
+        mdist["pulled_at_eval"] += int(r.get("pulls", 0) > 0)
+        rep.count(json.dumps(["match", sc], sort_keys=True), '"var"' in txt or "match_any_var" in txt)
+        if r["build"]:
+            mbad.append((sc, r))
+    for sc, r in sorted(mbad, key=lambda t: len(json.dumps(t[0])))[:2]:
+        rep.violation({"kind": "counterexample", "family": "match", "scenario": sc, "impl": {"build": r["build"]}, "spec": {"build": []},
+                       "python": match_snippet(sc),
+                       "explanation": "building an(entity_matching(MPet, <generator>)(**kw)) -- kw values: literals, let-variables over generator domains, "
+                                      "nested match / select / match_any / match_all -- ran user code: [0,var,i] the i-th element was pulled out of a "
+                                      "generator domain (var 0 = the matched entity's domain, 1.. = the keyword variables in order of creation), "
+                                      "[2,obj,field] a field of a user object was read, [4,obj] bool(obj) was called. Nothing was evaluated yet."})
+    if len(mbad) > 2:
+        rep.note(f"{len(mbad)} match-API constructions ran user code (2 smallest reported)")
+
+    # ---- quantified shapes (exists / for_all): Spec predicates on the implementation's logs
+    qimpl = run_impl_many(qcases) if qcases else []
+    qran = [k for k, i in enumerate(qimpl) if "exc" not in i]
+    qspec = dict(zip(qran, coq_spec([qcases[k] for k in qran], [qimpl[k] for k in qran]))) if qran else {}
+    qdist = {"queries": len(qcases), "pairs": 0, "exceptions": len(qcases) - len(qran), "forall": 0, "exists": 0}
+    qbad = []
+    for k, (c, o) in enumerate(zip(qcases, qorigin)):
+        st = eqlgen.stats(c)
+        qdist["forall"] += int(st.get("forall", 0) > 0)
+        qdist["exists"] += int(st.get("exists", 0) > 0)
+        if k not in qspec:
+            continue
+        i = qimpl[k]
+        for n, l in enumerate(i["ks"]):
+            qdist["pairs"] += 1
+            rep.count(json.dumps(["q", c, n], sort_keys=True), n >= 1 and any(e[0] == 0 for e in l))
+        code = qspec[k][1] | (16 if i["build"] else 0)
+        if code:
+            qbad.append((c, o, code, i))
+    for c, o, code, i in sorted(qbad, key=lambda t: len(json.dumps(t[0])))[:2]:
+        rep.violation({"kind": "counterexample", "family": "quantified", "origin": o, "case": c, "spec_code": code, "spec_misses": explain(code),
+                       "impl": {"build": canon_log(i["build"]), "full": canon_log(i["full"]), "ks": [canon_log(l) for l in i["ks"]]},
+                       "python": snippet(c, None),
+                       "explanation": "query with exists / for_all (no model: the Spec predicates of Eql/TraceSpec.v are evaluated on the real engine's logs). "
+                                      "events [0,x,i] pull, [1,x] generator finished, [2,obj,attr] getattr, [3,row] result; ks[n] = log after pulling n results"})
+    if len(qbad) > 2:
+        rep.note(f"{len(qbad)} quantified queries miss the Spec (2 smallest reported)")
+    rep.extra["reevaluation"] = sdist
+    rep.extra["match_construction"] = mdist
+    rep.extra["quantified"] = qdist
+
     # ---- known findings: replay the witnesses
     for f in findings:
         try:
@@ -536,7 +986,7 @@ def run(tier: str, seed: int, replay=None) -> int:
             rep.violation({"kind": "counterexample", "finding": f.fid, "witness": f.witness, "impl": got, "spec": w.get("spec"),
                            "python": py, "explanation": f"regression: defect repaired in {f.commit} is back"})
 
-    if replay is not None and "python" in replay and "case" not in replay:
+    if replay is not None and family is None and "python" in replay and "case" not in replay:
         got = run_python_witness(replay["python"])
         if got != replay.get("spec"):
             rep.violation({"kind": "counterexample", "impl": got, "spec": replay.get("spec"), "python": replay["python"]})
